@@ -125,15 +125,19 @@ def _dh_params(tier):
     out = []
     for h in (["SHA512", "SHA1"] if tier == "quick" else HASHES):
         for kl, priv in ([(1, 8), (2, 16), (256, 512)] if tier == "quick" else [(1, 8), (2, 9), (3, 24), (4, 32), (32, 256), (256, 512)]):
-            out.append(dict(hash_name=h, kl=kl, priv_len=priv))
+            out.append(dict(hash_name=h, kl=kl, priv_len=priv, pkl=kl))
+    # the group parameters of the group key may be written with a wider key_length than the public key blob (same p and g, more leading zero octets)
+    out.append(dict(hash_name="SHA256", kl=2, priv_len=16, pkl=6))
+    if tier != "quick":
+        out += [dict(hash_name="SHA384", kl=1, priv_len=8, pkl=4), dict(hash_name="SHA512", kl=4, priv_len=32, pkl=8)]
     return out
 
 
 @harness(P, per_job=True, params=_dh_params, max_steps=400000,
          bounds="DH: field order p >= 5 and generator 1 < g < p-1 symbolic below 2^(8*key_length) for key_length in {1,2,256} quick / {1,2,3,4,32,256} thorough (small groups make values with leading zero "
-         "bytes the majority; at key_length 256 p and g are the RFC 5114 group), private key length 8..512 bits incl. a non-multiple of 8, L2 seed and ephemeral key symbolic",
+         "bytes the majority; at key_length 256 p and g are the RFC 5114 group), private key length 8..512 bits incl. a non-multiple of 8, L2 seed and ephemeral key symbolic; the group parameters carry the same or a wider key_length than the public key",
          outside="other key lengths", must_reach=("dh: both sides agree", "dh: KDF parameters and fixed-width shared secret", "dh: public values are fixed width"))
-def dh_mode(c, hash_name, kl, priv_len):
+def dh_mode(c, hash_name, kl, priv_len, pkl):
     w, cap = _setup(c)
     seed = c.bytes("l2seed", 64)
     if kl == 256:
@@ -143,7 +147,7 @@ def dh_mode(c, hash_name, kl, priv_len):
         top = (1 << (8 * kl)) - 1
         p, g = c.int("p", 5, top), c.int("g", 2, top)
         c.assume(g < p - 1)  # a group a DC can hand out: generator and derived values are not the degenerate elements 0, 1, p-1 (which compute_kek refuses)
-    sec_params = c.call(_gkdi.FFCDHParameters(kl, p, g).pack)
+    sec_params = c.call(_gkdi.FFCDHParameters(pkl, p, g).pack)
     nbytes = math.ceil(priv_len / 8)
     # --- the DC's side (MS-GKDI 3.1.4.1.2), on the same ideal primitives
     x_bytes = cap.derive(dict(kind="kbkdf", algorithm=hash_name.lower(), mode=Mode.CounterMode, length=nbytes, rlen=4, llen=4, location=CounterLocation.BeforeFixed, label=LABEL,
